@@ -230,6 +230,36 @@ def analyse_call(call, v, counters):
                     v("stripe:horizontal-padding-differs-from-receptive-field", "%s: registers pad left/right %d/%d, receptive field needs %d/%d" % (desc, F.pad[1], F.pad[3], wpl, wpr))
             if F.ofm.height != y1 - y0 or F.ofm.width != x1 - x0:
                 v("stripe:ofm-size-register", "%s: OFM registers %dx%d" % (desc, F.ofm.height, F.ofm.width))
+        # ---- binary elementwise operators: each operand's input region is the OFM region (write offset removed) moved by that operand's own read offset,
+        # collapsed to [0, 1) along broadcast dimensions
+        if bt == NpuBlockType.ElementWise and getattr(cmd, "ifm2_box", None) is not None and len(op.ifm_shapes) > 1 and cmd.ifm2_tensor is not None and cmd.ifm2_tensor.shape != []:
+            try:
+                wofs = [int(x) for x in op.write_offset.as_list()] if op.write_offset is not None else [0, 0, 0, 0]
+                o0 = [int(a) - w_ for a, w_ in zip(cmd.ofm_box.start_coord[-4:], wofs)]
+                o1 = [int(a) - w_ for a, w_ in zip(cmd.ofm_box.end_coord[-4:], wofs)]
+                oshape = [int(x) for x in op.ofm_shapes[0].as_list()]
+                for k_, (box_, nm_) in enumerate(((cmd.ifm_box, "ifm"), (cmd.ifm2_box, "ifm2"))):
+                    ishape = [int(x) for x in op.ifm_shapes[k_].as_list()]
+                    tshape = [int(x) for x in (cmd.ifm_tensor, cmd.ifm2_tensor)[k_].shape]
+                    tshape = [1] * (4 - len(tshape)) + tshape[-4:]
+                    if any(tshape[d] == 1 and oshape[d] != 1 for d in range(4)) or any(ishape[d] == 1 and oshape[d] != 1 for d in range(4)):
+                        counters["elementwise_operand_boxes_broadcast"] = counters.get("elementwise_operand_boxes_broadcast", 0) + 1
+                        continue  # broadcast operands: the box is the operand's own extent, checked by C01 / C02 end to end
+                    rofs = [int(x) for x in op.read_offsets[k_].as_list()] if k_ < len(op.read_offsets) and op.read_offsets[k_] is not None else [0, 0, 0, 0]
+                    full = op.read_shapes[k_] is None if k_ < len(op.read_shapes) else True
+                    want0, want1 = [], []
+                    for d in range(4):
+                        bcast = (ishape[d] == 1 and oshape[d] != 1) if full else False
+                        want0.append(rofs[d] + (0 if bcast else o0[d]))
+                        want1.append(rofs[d] + (1 if bcast else o1[d]))
+                    got0, got1 = [int(x) for x in box_.start_coord[-4:]], [int(x) for x in box_.end_coord[-4:]]
+                    counters["elementwise_operand_boxes"] = counters.get("elementwise_operand_boxes", 0) + 1
+                    counters["elementwise_operand_boxes_with_read_offset"] = counters.get("elementwise_operand_boxes_with_read_offset", 0) + int(any(rofs))
+                    if len(got0) == 4 and (got0 != want0 or got1 != want1):
+                        v("stripe:elementwise-operand-region-differs-from-ofm-region:" + nm_, "%s: OFM region %s..%s, read offset %s: %s box %s..%s, expected %s..%s" % (
+                            ps.name, o0, o1, rofs, nm_, got0, got1, want0, want1))
+            except (AttributeError, TypeError, IndexError, ValueError):
+                counters["unmodelled_elementwise_boxes"] = counters.get("unmodelled_elementwise_boxes", 0) + 1
         # ---- rolling buffers: row-granular writer tags over decoded addresses
         for tens, box, fmv, is_write in ((cmd.ofm_tensor, cmd.ofm_box, F.ofm, True), (cmd.ifm_tensor, cmd.ifm_box, F.ifm, False)):
             if tens is None or len(box.start_coord) < 3:
